@@ -14,9 +14,11 @@ func init() { register("C10", "other", checkC10) }
 
 func checkC10(w *World, r *Result) {
 	r.Explanation = "Decides structural necessary conditions on analysis/enums.go: AGR-C10m a member is appended once per scope name under exactly the three filters (is a constant, its type is named, no opt-out comment), keyed by the constant's own named type, carrying the constant and its own comment; PTH-C10a every store of true into IsIota is dominated by the integer-kind test, by the per-member 'not an int64 or negative => return' test, by the gap test against max+1, by a duplicate rejection, and is preceded on its path by the sort of the members by value; the sort helper swaps every parallel slice and compares the values; AGR-C10b the population the iota test counts (exported constants) is the population positional consumers enumerate (Dart names/values, randdata choices skip exactly the unexported ones). Does not decide: the trailing-comment lookup against the syntax tree, same-name enums in two packages, exactness of values (go/constant's job)."
-	r.Rules = []string{"AGR-C10m membership filters", "PTH-C10a iota flag dominance", "AGR-C10s sort helper", "SORT-PAR", "MEMO-KEY", "AGR-C10b population agreement", "STATE-PKG"}
+	r.Rules = []string{"AGR-C10m membership filters", "AGR-C10k comment lookup", "AGR-C10r import filter", "PTH-C10a iota flag dominance", "AGR-C10s sort helper", "SORT-PAR", "MEMO-KEY", "AGR-C10b population agreement", "STATE-PKG"}
 	statePkgRule(w, r, func(rel string) bool { return rel == "analysis" })
 	checkEnumMembers(w, r)
+	checkCommentLookup(w, r)
+	checkSelectorRoot(w, r)
 	memoKeyRule(w, r, func(rel string) bool { return rel == "analysis" })
 	checkSetIsIota(w, r)
 	checkEnumConsumers(w, r)
@@ -333,6 +335,7 @@ func checkSetIsIota(w *World, r *Result) {
 	conds := pathConds(fi.Decl, seenStore)
 	var rendered []string
 	expOK, negOK, okOK, dupOK := false, false, false, false
+	skipWhy := "the non-negative/int64 test of each member no longer dominates the bookkeeping"
 	for _, c := range conds {
 		if c.expr == nil {
 			continue
@@ -345,12 +348,30 @@ func checkSetIsIota(w *World, r *Result) {
 		if c.truth && s == "$m.Const.Exported()" {
 			expOK = true
 		}
+		// the failing member must end the whole test (return), not merely be skipped (continue): a skipped member
+		// keeps position 0 in the sort and the enum is still flagged
+		endsTest := func() bool {
+			if c.exit == nil || len(c.exit.Body.List) == 0 {
+				return false
+			}
+			_, isRet := c.exit.Body.List[len(c.exit.Body.List)-1].(*ast.ReturnStmt)
+			return isRet
+		}
 		if be, ok := c.expr.(*ast.BinaryExpr); ok && !c.truth && be.Op == token.LSS && es(be.Y) == "0" && identOf(be.X) != nil && objOf(info, identOf(be.X)) == valVar {
-			negOK = true
+			negOK = endsTest()
+			if !negOK {
+				skipWhy = "a negative member is skipped instead of ending the test"
+			}
 		}
 		if id := identOf(c.expr); id != nil && c.truth && id.Name != "" {
 			// ok of `v, ok := member.int64()`
-			okOK = okOK || isOkOfInt64(info, loop, id)
+			if isOkOfInt64(info, loop, id) {
+				if endsTest() {
+					okOK = true
+				} else {
+					skipWhy = "a member that is not representable as an int64 is skipped (continue) instead of ending the test (return): it keeps the sort key 0 and the enum is flagged although that exported member does not have the value of its position"
+				}
+			}
 		}
 		// duplicate rejection: !(seen[v])
 		if ix, ok := c.expr.(*ast.IndexExpr); ok && !c.truth && identOf(ix.X) != nil && objOf(info, identOf(ix.X)) == seenMap {
@@ -361,7 +382,7 @@ func checkSetIsIota(w *World, r *Result) {
 	r.cond(expOK, "AGR-C10b", name, "iota test counts exactly the exported constants", pos,
 		"the bookkeeping of values is reached only for members with Const.Exported() (unexported ones are skipped, blank or not)",
 		"the values entering the iota test are selected by {"+strings.Join(rendered, ", ")+"}, not by Const.Exported(): the flag is decided on a population other than the exported constants that Dart/randdata enumerate by position")
-	r.cond(negOK && okOK, "PTH-C10a", name, "every member is a non-negative int64", pos, "dominated by `if !ok || v < 0 { return }` on the member's own value", "the non-negative/int64 test of each member no longer dominates the bookkeeping")
+	r.cond(negOK && okOK, "PTH-C10a", name, "every member is a non-negative int64", pos, "dominated by `if !ok || v < 0 { return }` on the member's own value", skipWhy)
 	// duplicates: either membership rejection, or a per-member counter compared later
 	counterOK := false
 	ast.Inspect(loop.Body, func(x ast.Node) bool {
@@ -495,5 +516,84 @@ func checkEnumConsumers(w *World, r *Result) {
 		r.cond(len(guards) == 1 && guards[0] == "!($m.Const.Exported())", "AGR-C10b", fi.Name, "positional consumer skips exactly the unexported constants", w.Pos(loop.Pos()),
 			"the loop starts with `if !m.Const.Exported() { continue }`: the same population setIsIota counts",
 			"the loop's leading filter is {"+strings.Join(guards, ", ")+"} instead of exactly !Const.Exported(): positions no longer correspond to the values the iota flag was decided on")
+	}
+}
+
+// checkCommentLookup (AGR-C10k): the opt-out (`gomacro:no-enum`) and the label of a member are read from the
+// trailing comment fetchConstComment returns. The lookup must be total: it may give up ("") only because the
+// syntax tree holds no spec or no comment for the constant (a nil test, a failed assertion), never because of a
+// property of the constant itself (exported or not, its type, its value).
+func checkCommentLookup(w *World, r *Result) {
+	fi := w.MustFunc("analysis.fetchConstComment")
+	info := fi.Pkg.TypesInfo
+	n := 0
+	ast.Inspect(fi.Decl.Body, func(x ast.Node) bool {
+		ret, ok := x.(*ast.ReturnStmt)
+		if !ok || len(ret.Results) != 1 {
+			return true
+		}
+		tv := info.Types[ret.Results[0]]
+		if tv.Value == nil || tv.Value.Kind() != constant.String || constant.StringVal(tv.Value) != "" {
+			return true
+		}
+		n++
+		bad := ""
+		for _, c := range pathConds(fi.Decl, ret) {
+			if c.expr == nil {
+				continue
+			}
+			e := ast.Unparen(c.expr)
+			okForm := false
+			if be, isBin := e.(*ast.BinaryExpr); isBin && (be.Op == token.EQL || be.Op == token.NEQ) && (es(be.Y) == "nil" || es(be.X) == "nil") {
+				okForm = true // a nil test of a syntax node / comment group
+			}
+			if id, isID := e.(*ast.Ident); isID && info.TypeOf(id) != nil && info.TypeOf(id).String() == "bool" {
+				okForm = true // the ok of a comma-ok assertion on a syntax node
+			}
+			if !okForm {
+				bad = es(c.expr)
+			}
+		}
+		r.cond(bad == "", "AGR-C10k", fi.Name, "gives up only when the syntax tree has no comment", w.Pos(ret.Pos()),
+			"this `return \"\"` is reached only through nil tests and failed assertions on syntax nodes",
+			"the comment lookup gives up under `"+bad+"`, a property of the constant rather than of the syntax tree: the opt-out comment `gomacro:no-enum` and the label of such a constant are never seen (an opted-out sentinel becomes a member and can change IsIota)")
+		return true
+	})
+	if n == 0 {
+		Undecided("AGR-C10k: fetchConstComment has no `return \"\"`")
+	}
+}
+
+// checkSelectorRoot (AGR-C10r): the import filter of the enum/union walk (which imported packages belong to the
+// user's module) is computed from the root package, the parameter of fetchEnumsAndUnions, once -- not from the
+// package being visited, whose own path would become the prefix and exclude its siblings.
+func checkSelectorRoot(w *World, r *Result) {
+	fi := w.MustFunc("analysis.fetchEnumsAndUnions")
+	info := fi.Pkg.TypesInfo
+	sel := w.MustFunc("analysis.NewPkgSelector")
+	n := 0
+	ast.Inspect(fi.Decl.Body, func(x ast.Node) bool {
+		call, ok := x.(*ast.CallExpr)
+		if !ok || calleeOf(info, call) != sel.Obj || len(call.Args) != 1 {
+			return true
+		}
+		n++
+		isRoot := false
+		if id := identOf(call.Args[0]); id != nil {
+			for _, f := range fi.Decl.Type.Params.List {
+				for _, nm := range f.Names {
+					if info.Defs[nm] == objOf(info, id) {
+						isRoot = true
+					}
+				}
+			}
+		}
+		r.cond(isRoot, "AGR-C10r", fi.Name, "import filter built from the root package: "+es(call), w.Pos(call.Pos()),
+			"NewPkgSelector receives the parameter of fetchEnumsAndUnions",
+			"the import filter is built from `"+es(call.Args[0])+"`, not from the root package: while visiting a sub-package its own path becomes the prefix, so its sibling packages are ignored and the enums and unions declared there are analysed as plain named types")
+		return true
+	})
+	if n == 0 {
+		Undecided("AGR-C10r: fetchEnumsAndUnions no longer calls NewPkgSelector")
 	}
 }
